@@ -410,3 +410,24 @@ pub fn spki_strict() {
     }
     kani::cover!(true, "REACH");
 }
+
+/// `KeyIdMethod::derive`: the pre-specified bytes, or the first 20 bytes of the digest (S2: an
+/// uninterpreted function) of exactly the given SubjectPublicKeyInfo bytes under the method's hash.
+#[cfg(feature = "ring")]
+pub fn key_id_derive(method: u8) {
+    crate::env::digest_stub::layout_ok();
+    let spki: [u8; 5] = kani::any();
+    let (m, alg) = match method {
+        1 => (rcgen::KeyIdMethod::Sha256, &ring::digest::SHA256),
+        2 => (rcgen::KeyIdMethod::Sha384, &ring::digest::SHA384),
+        _ => (rcgen::KeyIdMethod::Sha512, &ring::digest::SHA512),
+    };
+    let got = hk::key_id_derive(&m, &spki);
+    let want = ring::digest::digest(alg, &spki);
+    assert!(got.len() == 20, "C02:key-id-length");
+    assert!(bytes_eq(&got, 0, 20, &want.as_ref()[..20]), "C02:key-id-not-the-truncated-hash-of-the-spki");
+    let pre: [u8; 3] = kani::any();
+    let got = hk::key_id_derive(&rcgen::KeyIdMethod::PreSpecified(pre.to_vec()), &spki);
+    assert!(bytes_eq(&got, 0, got.len(), &pre), "C02:key-id-prespecified");
+    kani::cover!(true, "REACH");
+}
